@@ -140,7 +140,7 @@ def match_known(known, sig):
 
 
 def write_replay(prop, sig, v, modname):
-    d = os.path.join(VERIF, "replays", prop)
+    d = os.path.join(os.environ.get("VERIF_REPLAY_DIR") or os.path.join(VERIF, "replays"), prop)
     os.makedirs(d, exist_ok=True)
     name = "%016x.json" % h64(sig)
     path = os.path.join(d, name)
@@ -272,8 +272,9 @@ def run_property(modname, tier, seed, only_scopes=None):
         "wall_s": round(wall, 2),
         "violations": sum(total.viol_counts[s] for s in unknown),
     }
-    os.makedirs(os.path.join(VERIF, "evidence"), exist_ok=True)
-    evp = os.path.join(VERIF, "evidence", prop + ".json")
+    evdir = os.environ.get("VERIF_EVIDENCE_DIR") or os.path.join(VERIF, "evidence")   # redirected only by tools/seeded_eval.py
+    os.makedirs(evdir, exist_ok=True)
+    evp = os.path.join(evdir, prop + ".json")
     with open(evp + ".tmp", "w") as f:
         json.dump(ev, f, indent=1, default=repr, sort_keys=False)
         f.write("\n")
